@@ -42,7 +42,13 @@ pub fn fault_call(ch: &mut Chooser, kind: &str) -> Option<(Expr, Vec<Expr>)> {
             6 => (var("vector-ref"), vec![var("wv")]),
             _ => (Expr::Lambda(Formals { fixed: vec!["u".into()], rest: None }, body1(var("u"))), vec![Expr::Int(1), Expr::Int(2)]),
         },
-        "wrong-type" => match ch.below(6) {
+        "wrong-type" => match ch.below(11) {
+            // a non-number after an absorbing / neutral element, in every arithmetic and comparison procedure
+            6 => (var("*"), vec![Expr::Int(0), q(Datum::Sym("a".into()))]),
+            7 => (var("*"), vec![Expr::Int(3), Expr::Int(0), Expr::Str("x".into()), Expr::Int(4)]),
+            8 => (var("+"), vec![Expr::Int(0), Expr::Bool(true)]),
+            9 => (var("="), vec![Expr::Int(1), Expr::Int(2), q(Datum::Sym("a".into()))]),
+            10 => (var("max"), vec![Expr::Int(1), Expr::Str("2".into())]),
             0 => (var("+"), vec![Expr::Int(1), q(Datum::Sym("a".into()))]),
             1 => (var("car"), vec![Expr::Int(5)]),
             2 => (var("vector-ref"), vec![q(ilist(vec![1])), Expr::Int(0)]),
